@@ -199,7 +199,26 @@ pub fn judge_unary(a: &Val) -> Verdict {
     Verdict::Pass
 }
 
+pub fn hist_judge(c: &crate::hist::HCall, _l: Option<&mut crate::run::Local>) -> Verdict {
+    if c.kind == 1 {
+        return match c.code {
+            10 => judge_pair(&mkval(c.a), &mkval(c.b)),
+            11 => judge_f64(&mkval(c.a), c.b[0]),
+            // validity queries / checked construction: part of the history only (C07 judges them)
+            _ => Verdict::Skip,
+        };
+    }
+    match c.as_op() {
+        Some(Op::signum) | Some(Op::abs) => judge_unary(&mkval(c.a)),
+        Some(Op::min) | Some(Op::max) | Some(Op::copysign) => judge_pair(&mkval(c.a), &mkval(c.b)),
+        _ => Verdict::Skip,
+    }
+}
+
 pub fn replay(call: &str, _clause: &str, args: &[u64]) -> Verdict {
+    if call == "hist" {
+        return crate::hist::replay(args, &hist_judge);
+    }
     let a = mkval([f64::from_bits(args[0]), f64::from_bits(args[1])]);
     match call {
         "cmp_f64" => judge_f64(&a, f64::from_bits(args[2])),
@@ -450,5 +469,27 @@ pub fn run(r: &mut Runner) {
                 }
             }
         });
+    }
+    {
+        use crate::hist::HCall;
+        // a valid value at a validity threshold, its mirror image (invalid: rejected by try_from), comparisons and sign
+        // queries, in every order: a rejected construction must not influence a later comparison
+        let mut groups: Vec<Vec<HCall>> = vec![];
+        for (h, lo) in [(1.0, 2f64.powi(-53)), (4.0, 0.75 * 2f64.powi(-51)), (-2.0, -2f64.powi(-52)), (1.5, 2f64.powi(-53))] {
+            let x = [h, lo];
+            let m = [h, -lo];
+            let two = [2.0 * h.abs() + 1.0, 0.0];
+            groups.push(vec![
+                HCall::ext(13, m, [0.0, 0.0]),
+                HCall::ext(13, x, [0.0, 0.0]),
+                HCall::ext(10, x, two),
+                HCall::ext(10, two, x),
+                HCall::ext(11, x, two),
+                HCall::op(Op::signum, x, [0.0, 0.0]),
+                HCall::op(Op::min, x, two),
+                HCall::op(Op::abs, [-h, -lo], [0.0, 0.0]),
+            ]);
+        }
+        crate::hist::explore(r, "histories: validity queries / rejected constructions before comparisons", &groups, 3, &hist_judge, 1u64 << 61);
     }
 }
